@@ -97,6 +97,9 @@ Properties_C03.vos Properties_C03.vok Properties_C03.required_vos: Properties_C0
 Properties_C07.vo Properties_C07.glob Properties_C07.v.beautified Properties_C07.required_vo: Properties_C07.v Base.vo Fields.vo SrcFacts.vo Msg.vo SrcDecisions.vo Sim.vo Prober.vo ProberProofs.vo
 Properties_C07.vio: Properties_C07.v Base.vio Fields.vio SrcFacts.vio Msg.vio SrcDecisions.vio Sim.vio Prober.vio ProberProofs.vio
 Properties_C07.vos Properties_C07.vok Properties_C07.required_vos: Properties_C07.v Base.vos Fields.vos SrcFacts.vos Msg.vos SrcDecisions.vos Sim.vos Prober.vos ProberProofs.vos
+Properties_C04.vo Properties_C04.glob Properties_C04.v.beautified Properties_C04.required_vo: Properties_C04.v Base.vo Fields.vo SrcFacts.vo Msg.vo
+Properties_C04.vio: Properties_C04.v Base.vio Fields.vio SrcFacts.vio Msg.vio
+Properties_C04.vos Properties_C04.vok Properties_C04.required_vos: Properties_C04.v Base.vos Fields.vos SrcFacts.vos Msg.vos
 Properties_C20.vo Properties_C20.glob Properties_C20.v.beautified Properties_C20.required_vo: Properties_C20.v Base.vo Fields.vo SrcFacts.vo Msg.vo Cache.vo CacheSpec.vo CacheProofs.vo Values.vo ValuesProofs.vo
 Properties_C20.vio: Properties_C20.v Base.vio Fields.vio SrcFacts.vio Msg.vio Cache.vio CacheSpec.vio CacheProofs.vio Values.vio ValuesProofs.vio
 Properties_C20.vos Properties_C20.vok Properties_C20.required_vos: Properties_C20.v Base.vos Fields.vos SrcFacts.vos Msg.vos Cache.vos CacheSpec.vos CacheProofs.vos Values.vos ValuesProofs.vos
